@@ -5,6 +5,7 @@ use vaporetto::{CharacterBoundary, Sentence};
 
 mod c01;
 mod c02;
+mod c03;
 mod gen;
 mod fmt;
 mod c05;
@@ -29,6 +30,8 @@ fn main() {
         ("c13", "dump") => { c01::dump(); None }
         ("c02", "search") => c02::search(),
         ("c02", "replay") => c02::replay(&args[3]),
+        ("c03", "search") => c03::search(),
+        ("c03", "replay") => c03::replay(&args[3]),
         ("c16", "search") => c16::search(),
         ("c16", "replay") => c16::replay(&args[3]),
         ("c19", "search") => c19::search(),
